@@ -712,6 +712,15 @@ func judgeReplaced(r *Run, j *Judged, cl []*cls, by map[int]*OResp) {
 func judgeOwnership(r *Run, j *Judged, cl []*cls) {
 	for _, c := range cl {
 		e := c.e
+		// "it never modifies the caller's request": the value as it stood when RoundTrip was called, field by field
+		// (an empty Method is a legal spelling of GET and stays empty)
+		if e.Returned && e.Panic == "" {
+			j.count("C16", "caller-request-modified")
+			if e.Req.RawMethod != e.ReqAfter.RawMethod || e.Req.URL != e.ReqAfter.URL || e.Req.Host != e.ReqAfter.Host ||
+				!reflect.DeepEqual(e.Req.Header, e.ReqAfter.Header) || e.Req.Ctx != e.ReqAfter.Ctx {
+				j.fail("C16", "caller-request-modified", e, "", "the caller's *http.Request changed during RoundTrip: method %q -> %q, url %q -> %q, host %q -> %q, header %v -> %v", e.Req.RawMethod, e.ReqAfter.RawMethod, e.Req.URL, e.ReqAfter.URL, e.Req.Host, e.ReqAfter.Host, e.Req.Header, e.ReqAfter.Header)
+			}
+		}
 		if e.HdrFinal == nil || e.HdrEnd == nil {
 			continue
 		}
